@@ -36,6 +36,15 @@ class AuthBench:
             if as_int != il:
                 chk.violation(f"require_user_verification={p2.require_uv} gives another outcome than {pol.require_uv} ({label}): {as_int[:50]} instead of {il[:50]}",
                               f"policy-as-int auth {label.split('+')[0]}", dict(rp, policy_as_int={"require_user_verification": p2.require_uv}, outcome_as_int=as_int))
+        # the same call with its arguments in another admissible Python shape (non-contiguous views, bytearrays, str subclasses, tuples, other number types ...): two per case, round-robin
+        eq = impl.equivalent_auth_calls(pol, a)
+        self._eq_n = getattr(self, "_eq_n", 0) + 1
+        for j in ((self._eq_n * 2) % len(eq), (self._eq_n * 2 + 1) % len(eq)):
+            nm, thunk = eq[j]
+            o2 = thunk()
+            chk.evals += 1
+            if o2 != il and not (o2.startswith("ERR") and il.startswith("ERR") and a.typ != "public-key"):
+                chk.violation(f"the same call with {nm} gives another outcome ({label}): {o2[:50]} instead of {il[:50]}", f"argument-shape auth {nm} {label.split('+')[0]}", dict(rp, argument_shape=nm, outcome=o2))
         # a policy switch that has its documented default may as well be left out of the call
         if pol.require_uv is False:
             import webauthn as _w
